@@ -86,6 +86,12 @@ VerdictPNLong(r) ==
     ELSE IF ~Close(r.e1, r.eform, 2 * r.tol) THEN "longrange_term_is_not_its_formula"
     ELSE IF ~Close(r.dtot, r.e12 - r.e1, 4 * r.tol) THEN "total_is_not_the_sum_of_its_terms_after_changing_the_cutoff"
     ELSE "ok"
+\* the same evaluation twice on one object, and with the applied stress reversed on a fresh one (the stress term is linear in tau)
+VerdictPNRepeat(r) ==
+    IF r.first # r.second THEN "repeated_evaluation_on_one_object_changes_the_energy"
+    ELSE IF ~r.taukept THEN "evaluation_modified_the_applied_stress_kept_on_the_object"
+    ELSE IF ~Close(r.neg, -r.first[1], r.tol) THEN "stress_term_is_not_linear_in_the_applied_stress"
+    ELSE "ok"
 VerdictPNSolve(r) ==
     IF r.after > r.before + r.tol THEN "solving_raised_the_total_energy"
     ELSE IF r.first1 # r.first0 \/ r.last1 # r.last0 THEN "end_disregistry_changed_by_the_solver"
@@ -97,5 +103,5 @@ VerdictPNWidth(r) ==        \* r.e: energies for half-widths zeta * 2^(j/4), j =
 VerdictPN(r) ==
     CASE r.ev = "gsample" -> VerdictGSample(r) [] r.ev = "gperiod" -> VerdictGPeriod(r) [] r.ev = "gconv" -> VerdictGConv(r)
       [] r.ev = "pnterms" -> VerdictPNTerms(r) [] r.ev = "pnlaws" -> VerdictPNLaws(r) [] r.ev = "pnsolve" -> VerdictPNSolve(r)
-      [] r.ev = "pnwidth" -> VerdictPNWidth(r) [] r.ev = "pnlong" -> VerdictPNLong(r) [] OTHER -> "unknown_event"
+      [] r.ev = "pnwidth" -> VerdictPNWidth(r) [] r.ev = "pnlong" -> VerdictPNLong(r) [] r.ev = "pnrepeat" -> VerdictPNRepeat(r) [] OTHER -> "unknown_event"
 ====
